@@ -93,6 +93,11 @@ func Init(prop string) {
 		r.out = d
 	}
 	os.MkdirAll(r.out, 0o755)
+	// private temp dir per process: wrgl's testutils.TempFile honours RUNNER_TEMP, os.CreateTemp TMPDIR
+	tmp := filepath.Join(r.out, "tmp")
+	os.MkdirAll(tmp, 0o755)
+	os.Setenv("TMPDIR", tmp)
+	os.Setenv("RUNNER_TEMP", tmp)
 	for _, k := range strings.Split(os.Getenv("VERIF_KNOWN"), ",") {
 		if k != "" {
 			r.known[k] = true
@@ -148,6 +153,9 @@ func Scale(quick, thorough int) int {
 	}
 	return quick
 }
+
+// TempDir is the private temp directory of this process (TMPDIR and RUNNER_TEMP point at it).
+func TempDir() string { return filepath.Join(r.out, "tmp") }
 
 // OutDir is the private scratch directory of this run.
 func OutDir() string { return r.out }
